@@ -190,7 +190,9 @@ func TestC08(t *testing.T) {
 	rapid.Check(t, func(t *rapid.T) {
 		sched.SeedRand(t)
 		f := &failer{t: t, st: st}
-		c := newCW(f, false, false, 1)
+		// with user-managed memory (half of the cases) the shutdown audit also sees accessor tokens leaked by
+		// a failed Open/NewIterator: they would leave unlinked nodes unfreed
+		c := newCW(f, false, rapid.Bool().Draw(t, "mm"), 1)
 		defer c.teardown()
 		c.hookSequential()
 		// a little history so that every snapshot owns garbage and the collector has work
